@@ -25,7 +25,8 @@ ZIP-ORDER - no zip() of the Apollo3 reader / picker has a set operand (names
 and numbers stored side by side are paired by position). UNIT also requires
 that the NaN fall-back of an error is selected by the presence of the sigma
 key, not by the truth value of the printed sigma (0 is a value).
-PICK-CACHE - what a Picker memoises about ITS file is keyed on the instance:
+EDGE-EXACT - the reader modules compare the numbers of the listing exactly:
+no isclose / allclose with a non-zero absolute tolerance. PICK-CACHE - what a Picker memoises about ITS file is keyed on the instance:
 no mutable class-level container is written through self by its methods.
 NOT decided (out of reach of static analysis): that the pyparsing grammar and
 the builders put each printed number into the right cell, edition selection,
@@ -43,6 +44,7 @@ def check(ctx):
     ctx.run(parsers.check_edge_end)
     ctx.run(parsers.check_zip_order)
     ctx.run(parsers.check_instance_cache)
+    ctx.run(parsers.check_edge_exact)
 
 
 def variants(program):
